@@ -28,10 +28,10 @@ def plan(ctx):
                     fams=[("conf2", "conf", 2, None, 900), ("mix2", "mix", 2, None, 500), ("conf4", "conf", 4, "sim", 500),
                           ("conf3tail", "conf", 3, "tail", 2500)],
                     corrupt=300)
-    return dict(flavors=["oid/oid", "path/oidf", "oidf/path", "path/path"], resolvers=RESOLVERS,
-                fams=[("conf2", "conf", 2, None, None), ("mix2", "mix", 2, None, 4000), ("conf3", "conf", 3, None, 3000),
-                      ("std2", "std", 2, None, 5000), ("conf5", "conf", 5, "sim", 2000),
-                      ("conf3tail", "conf", 3, "tail", None), ("two3tail", "two", 3, "tail", 4000)],
+    return dict(flavors=["oid/oid", "path/oidf", "oidf/path", "path/path"], resolvers=[None, ["pick", 0, True], ["merge", False], ["raise"]],
+                fams=[("conf2", "conf", 2, None, None), ("mix2", "mix", 2, None, 2000), ("conf3", "conf", 3, None, 3000),
+                      ("std2", "std", 2, None, 2500), ("conf5", "conf", 5, "sim", 2000),
+                      ("conf3tail", "conf", 3, "tail", 4000), ("two3tail", "two", 3, "tail", 2000)],
                 corrupt=3000)
 
 
@@ -48,6 +48,14 @@ def shape(case, trace=None, line=None):
         taken = any(s2 != s and ((op2[0] == "create" and op2[1] == q_) or (op2[0] == "rename" and op2[2] == q_)) for (s2, op2) in ops)
         if again and taken:
             return {"shape": "MOVED_SOURCE_RECREATED_TARGET_TAKEN"}
+    # C02-MERGED-ANSWER-OVERWRITES-LATER-EDIT: a merging resolver, both sides put different content at one path, and the same
+    # path is written once more before the engine is quiet
+    res = case.get("resolver")
+    if res and res[0] == "merge" and len(ops) >= 3:
+        for path in {tuple(op[1]) for _, op in ops if op[0] in ("create", "write")}:
+            w = [(s, op) for s, op in ops if op[0] in ("create", "write") and tuple(op[1]) == path]
+            if len(w) >= 3 and len({s for s, _ in w}) == 2:
+                return {"shape": "MERGE_THEN_REWRITE"}
     return {"shape": ""}
 
 
